@@ -71,6 +71,18 @@ func isCurrentHashString(v *pw.Val) bool {
 	return ok && n == 10
 }
 
+// isParsedHash: the number strconv.ParseUint(<typesHash query value>, 10, 64) yields.
+func isParsedHash(v *pw.Val) bool {
+	if v == nil || v.Kind != pw.KCall || v.Ev == nil || v.Ev.Role != "Std:strconv.ParseUint" || v.Idx != 0 || len(v.Ev.Args) != 3 {
+		return false
+	}
+	if !queryGet(v.Ev.Args[0], "typesHash") || v.Ev.Args[1].Const == nil {
+		return false
+	}
+	n, ok := constant.Int64Val(v.Ev.Args[1].Const)
+	return ok && n == 10
+}
+
 func queryGet(v *pw.Val, key string) bool {
 	return v != nil && v.Kind == pw.KCall && v.Ev.Role == "Std:url.Values.Get" && len(v.Ev.Args) == 1 && constString(v.Ev.Args[0]) == key
 }
@@ -121,6 +133,42 @@ func (c *Ctx) c14Export() {
 		}
 		if dump == nil {
 			nRefuse++
+			// a refusal has one of the documented reasons: no / unknown name, no (or unparsable) typesHash parameter, or a hash that
+			// differs from the current one. A request that names a registered cache and carries the current hash is served — also
+			// when that hash is 0 (nothing registered with GobRegister on either side)
+			reason := false
+			for _, ev := range p.Events {
+				if ev.Kind == pw.EvMapLookup && ev.Recv != nil && ev.Recv.Kind == pw.KField && fname(ev.Recv.Field) == "caches" && len(ev.Results) == 2 {
+					if t, known := p.Truth(ev.Results[1]); known && !t {
+						reason = true
+					}
+				}
+				if ev.Kind == pw.EvCall && ev.Role == "Std:strconv.ParseUint" && len(ev.Results) == 2 && nilTri(p, ev.Results[1]) == triFalse {
+					reason = true
+				}
+			}
+			for pair, rel := range p.RelFacts() {
+				a, b := e.Vals[pair[0]], e.Vals[pair[1]]
+				if a == nil || b == nil {
+					continue
+				}
+				for _, xy := range [][2]*pw.Val{{a, b}, {b, a}} {
+					x, y := xy[0], xy[1]
+					isQ := queryGet(x, "name") || queryGet(x, "typesHash")
+					if isQ && rel == pw.REq && y.Kind == pw.KConst && constString(y) == "" && y.Const != nil {
+						reason = true // parameter missing
+					}
+					if queryGet(x, "typesHash") && isCurrentHashString(y) && rel&pw.REq == 0 {
+						reason = true
+					}
+					if isParsedHash(x) && y.Kind == pw.KCall && y.Ev != nil && y.Ev.Role == "Repo:GobTypesHash" && rel&pw.REq == 0 {
+						reason = true
+					}
+				}
+			}
+			if !reason {
+				r.Bad("R14.1", "HTTPTransfer.Export", "refusal-without-reason", c.Pos(p.RetPos), "a request is refused on a path that establishes neither a missing/unknown name, a missing typesHash parameter nor a hash different from the current one (e.g. the legitimate hash value 0 taken for \"missing\")", shortTrace(p))
+			}
 			if len(errs) == 0 {
 				r.Bad("R14.1", "HTTPTransfer.Export", "silent-refusal", c.Pos(p.RetPos), "a path neither dumps nor answers with an error status", shortTrace(p))
 			}
@@ -157,6 +205,11 @@ func (c *Ctx) c14Export() {
 				continue
 			}
 			if queryGet(a, "typesHash") && isCurrentHashString(b) || queryGet(b, "typesHash") && isCurrentHashString(a) {
+				okHash = true
+			}
+			// the same gate on numbers: ParseUint(typesHash, 10, 64) == GobTypesHash()
+			isCur := func(v *pw.Val) bool { return v.Kind == pw.KCall && v.Ev != nil && v.Ev.Role == "Repo:GobTypesHash" }
+			if isParsedHash(a) && isCur(b) || isParsedHash(b) && isCur(a) {
 				okHash = true
 			}
 		}
